@@ -48,7 +48,7 @@ def c19_1(R):
         R.fail([pw.name, "no-Pending-on(count==0)"], "a full buffer no longer makes write wait", where=pw.where(), instance="full=>Pending")
 
 
-@rule("C19.2", ["C19"], ["E5", "E4", "E3"], "growth is bounded by the configured maximum and copies the content in order",
+@rule("C19.2", ["C19", "C01", "C03"], ["E5", "E4", "E3"], "growth is bounded by the configured maximum and copies the content in order",
       "UserTx::grow: new capacity = min(cap * 2, max_size) (carries the bound <= max_size); returns None under cap >= max_size; the new ring receives push_slice(first) then push_slice(second) with "
       "(first, second) = fields (0, 1) of cons.as_slices(); producer and consumer halves are both replaced, while both guards are alive; RingBuf::new is called only in UserTx::new and grow; "
       "the dispatcher calls grow only with opts.vsock_tx_bufsize_bytes_max.")
@@ -111,6 +111,26 @@ def c19_2(R):
         R.ok("both-halves-swapped-under-locks", g.name, "*prod and *cons replaced before either guard is dropped")
     else:
         R.fail([g.name, "swap", "replaced=%s guard-dropped-before-swap=%d" % (sorted(str(k) for k in kinds), len(early))], "grow does not replace both ring halves while holding both locks: writer and dispatcher can see halves of different rings", where=g.where(), instance="both-halves-swapped-under-locks")
+    # ... and the writer is locked out BEFORE the old content is snapshotted: a poll_write between the snapshot and the swap pushes into the ring that is about to be dropped
+    plocks = [t for t in g.calls() if (t.resolved or t.callee or "").split("<")[0].endswith("Mutex::lock") and t.args and trace(g, t.args[0]).last_field == "UserTx.producer"]
+    snaps = [t for t in g.calls() if (t.resolved or t.callee or "").endswith("as_slices")]
+    R.floor("as_slices() snapshot in grow", len(snaps), 1)
+    dom_ = g.dominators()
+    for sn in snaps:
+        pre = [pl for pl in plocks if (pl.bb in dom_.get(sn.bb, ()) and pl.bb != sn.bb) or (pl.bb == sn.bb and pl.idx < sn.idx)]
+        # the guard taken there must still be alive at the snapshot
+        alive = []
+        for pl in pre:
+            gl = pl.dest.local if pl.dest is not None else None
+            dropped = [b_.term for b_ in g.blocks if not b_.cleanup and b_.term.kind == "drop" and b_.term.j.get("pl", {}).get("l") == gl and sn.bb in g.reachable(b_.idx) and b_.idx in g.reachable(pl.bb)]
+            moved_into_temp = "MutexGuard" not in (g.local_ty(gl) or "")
+            if not dropped and not moved_into_temp:
+                alive.append(pl)
+        if alive:
+            R.ok("writer-locked-out-before-snapshot", g.name, "producer.lock() dominates cons.as_slices() and its guard is alive there")
+        else:
+            R.fail([g.name, "snapshot-before(producer.lock)"], "grow copies the old ring's content before the producer lock is held: a write that lands between the copy and the swap is accepted into the ring "
+                   "that is then discarded - bytes vanish from the middle of the stream while write() returned Ok", where=sn.where(), instance="writer-locked-out-before-snapshot")
     for b, t_ in [(b, t) for b in F.bodies() for t in b.calls() if is_ring_new(t)]:
         fn = owner_fn(b)
         if fn in ("stream_tx::UserTx::new", "stream_tx::UserTx::grow"):
